@@ -121,6 +121,19 @@ class Ctx:
                 detail = detail()
             raise PropertyViolation(kind, detail)
 
+    @staticmethod
+    def blame(e):
+        """'file:line' of the code under test if the exception was raised there (or in a library it called) rather than
+        in the harness: walking from the raise site outwards, a pero_ocr / user_scripts frame comes before any harness frame."""
+        import traceback
+        for fr in reversed(traceback.extract_tb(e.__traceback__)):
+            fn = fr.filename.replace("\\", "/")
+            if "/pero_ocr/" in fn or "/user_scripts/" in fn or "verif_parse_folder" in fn or "verif_merge_ocr_results" in fn:
+                return "%s:%d" % (fn.split("/")[-1], fr.lineno)
+            if "/vlib/" in fn or "/checks/" in fn:
+                return None
+        return None
+
     def must(self, kind, fn, *a, **kw):
         """Call code under test that the property says must succeed."""
         try:
